@@ -28,27 +28,40 @@ type c20Req struct {
 	// Occ is the number of occurrences (included field nodes) merged into the
 	// field at a response path (list indices stripped), known by construction.
 	Occ map[string]int
+	// Golden is the exact response data when the values are constants of the
+	// world (default-resolved sources); ExpectArgs gives, per variable set, the
+	// coerced arguments a path must receive (known by construction).
+	Golden     string
+	ExpectArgs []map[string]string
 }
 
 var c20Reqs = []c20Req{
 	{"lists-abstract", `query($n:Int=2,$s:String){ nodes(n:$n) { id name(up:true) peer { id } ... on A { items(n:2) { n owner { id } } } ... on B { nn { s } } } echo(s:$s, i:3) }`,
-		[]map[string]interface{}{v("n", 1, "s", "a"), v("n", 3, "s", "b"), nil}, nil},
+		[]map[string]interface{}{v("n", 1, "s", "a"), v("n", 3, "s", "b"), nil}, nil, "", nil},
 	{"merged-fields", `{ a { name name2: name(up:true) items(n:2) { n } } a { id items(n:2) { label } } c { matrix } x1 ...F } fragment F on Query { x1 a { name } }`, nil,
-		map[string]int{"a": 3, "a.items": 2, "a.name": 2, "x1": 2, "a.id": 1, "c": 1}},
+		map[string]int{"a": 3, "a.items": 2, "a.name": 2, "x1": 2, "a.id": 1, "c": 1}, "", nil},
 	{"var-args-under-list", `query($up:Boolean,$n:Int,$as:String){ nodes(n:3) { name(up:$up) peer(as:$as) { id } ... on A { items(n:$n) { n } } ... on B { nodes(n:$n) { name(up:$up) } } ... on C { name(up:$up) } } }`,
-		[]map[string]interface{}{v("up", true, "n", 2, "as", "B"), v("up", false, "n", 1), nil}, nil},
+		[]map[string]interface{}{v("up", true, "n", 2, "as", "B"), v("up", false, "n", 1), nil}, nil, "", nil},
 	{"runtime-types", `query($as:String){ node(as:$as) { id ... on A { aOnly u { ... on B { bOnly } ... on A { aOnly } } } ... on B { bOnly nodes(n:2) { id } } ... on C { cOnly peer { id } } } }`,
-		[]map[string]interface{}{v("as", "A"), v("as", "B"), v("as", "C"), nil}, nil},
-	{"lists-of-lists", `{ deep { ll { v } l { d { v } } } leafy { li liNN } c { matrix } }`, nil, nil},
-	{"mutation", `mutation($v:Int){ m1(v:$v) { id nodes(n:2) { id } } s1(v:2) m2(v:5) { name } }`, []map[string]interface{}{v("v", 1), v("v", 9)}, nil},
+		[]map[string]interface{}{v("as", "A"), v("as", "B"), v("as", "C"), nil}, nil, "", nil},
+	{"lists-of-lists", `{ deep { ll { v } l { d { v } } } leafy { li liNN } c { matrix } }`, nil, nil, "", nil},
+	{"mutation", `mutation($v:Int){ m1(v:$v) { id nodes(n:2) { id } } s1(v:2) m2(v:5) { name } }`, []map[string]interface{}{v("v", 1), v("v", 9)}, nil, "", nil},
 	{"fragments", `query($f:Filter){ ...F echo(f:$f, l:[1,2]) } fragment F on Query { b { ...N nodes(n:2) { ...N } } } fragment N on Node { id peer { id kind } }`,
 		[]map[string]interface{}{v("f", map[string]interface{}{"min": 3}), nil, v("f", map[string]interface{}{"kind": "BETA", "tags": []interface{}{"t"}})},
-		map[string]int{"b": 1, "b.id": 1, "b.nodes.id": 1, "b.peer": 1}},
+		map[string]int{"b": 1, "b.id": 1, "b.nodes.id": 1, "b.peer": 1}, "", nil},
 	{"literal-and-variable-args", `query($i:Int,$n:Int,$s:String){ echo(i:$i, s:"lit") echo2(s:$s, i:4) nodes(n:$n, as:"A") { id } a { items(n:$n) { n } name(up:true) } }`,
-		[]map[string]interface{}{v("i", 5, "n", 3, "s", "sv"), v("i", 1, "n", 1), v("s", "only-s")}, nil},
-	{"typed-fragment-merge", `{ a { ...P } c { ...P } nodes(n:3) { ...P } } fragment P on Node { peer(as:"B") { id } ... on A { peer(as:"B") { ... on B { bOnly } } } ... on C { peer(as:"B") { name } } }`, nil, nil},
-	{"static-args", `{ echo(i:1, s:"a", e:BETA, f:{min:2}) echo2(l:[4,5]) a { items(n:3) { n label kind owner { id name kind } } name(up:true) } }`, nil, nil},
-	{"union-default-resolve", `{ u { ... on A { aOnly items(n:1) { n } } ... on B { bOnly } } b { u { ... on A { id } ... on B { id } } } }`, nil, nil},
+		[]map[string]interface{}{v("i", 5, "n", 3, "s", "sv"), v("i", 1, "n", 1), v("s", "only-s")}, nil, "", nil},
+	{"typed-fragment-merge", `{ a { ...P } c { ...P } nodes(n:3) { ...P } } fragment P on Node { peer(as:"B") { id } ... on A { peer(as:"B") { ... on B { bOnly } } } ... on C { peer(as:"B") { name } } }`, nil, nil, "", nil},
+	{"static-args", `{ echo(i:1, s:"a", e:BETA, f:{min:2}) echo2(l:[4,5]) a { items(n:3) { n label kind owner { id name kind } } name(up:true) } }`, nil, nil, "", nil},
+	{"union-default-resolve", `{ u { ... on A { aOnly items(n:1) { n } } ... on B { bOnly } } b { u { ... on A { id } ... on B { id } } } }`, nil, nil, "", nil},
+	{"default-resolved-sources", `{ plainA { name n tag } plainB { name n tag } plainPtr { name n } plainMap { name n tag } plainTagged { name n tag } plainFR { name n } plainFRPtr { name n tag echoArg(x:3) } }`, nil, nil,
+		`{"plainA":{"n":1,"name":"a-name","tag":"a-tag"},"plainB":{"n":2,"name":"b-name","tag":"b-tag"},"plainFR":{"n":9,"name":"fr-name"},"plainFRPtr":{"echoArg":3,"n":11,"name":"ptr-name","tag":"ptr-tag"},"plainMap":{"n":3,"name":"map-name","tag":"map-tag-fn"},"plainPtr":{"n":4,"name":"ptr-name"},"plainTagged":{"n":5,"name":"tagged-name","tag":"tagged-tag"}}`, nil},
+	{"object-literal-with-variable", `query($t:String!, $m:Int){ echo(f:{min:1, tags:[$t]}, i:4) echo2(f:{min:$m, kind:BETA, tags:["k"]}, l:[1,$m]) }`,
+		[]map[string]interface{}{v("t", "z", "m", 6), v("t", "y", "m", 2)}, nil, "",
+		[]map[string]string{
+			{"echo": `{"f":{"kind":1,"min":1,"tags":["z"]},"i":4}`, "echo2": `{"f":{"kind":"b","min":6,"tags":["k"]},"fd":{"min":3,"st":"dflt","tags":["d"]},"i":7,"l":[1,6]}`},
+			{"echo": `{"f":{"kind":1,"min":1,"tags":["y"]},"i":4}`, "echo2": `{"f":{"kind":"b","min":2,"tags":["k"]},"fd":{"min":3,"st":"dflt","tags":["d"]},"i":7,"l":[1,2]}`},
+		}},
 }
 
 type C20Exec struct {
@@ -664,6 +677,16 @@ func (c20) Run(t TestingT, scn json.RawMessage, tape *Tape) *Outcome {
 			if doc, err := parseDoc(rq.Query); err == nil {
 				if msg := CheckSelectedKeys(doc, "", vs, c07Root(rq.Query), dec.Data, typeAt, NewWorldPossible()); msg != "" {
 					o.Violate("C20/unselected-or-missing-key", "execution %d: %s\n response: %s", sl.ord, msg, ex.result)
+				}
+			}
+		}
+		if rq.Golden != "" && !strings.Contains(ex.result, `"data":`+rq.Golden) {
+			o.Violate("C20/wrong-constant-data", "execution %d: the default-resolved sources must yield %s, got %s", sl.ord, rq.Golden, ex.result)
+		}
+		if e := sc.Clients[sl.ci][sl.ei]; e.Vars < len(rq.ExpectArgs) && len(e.Faults) == 0 {
+			for p, want := range rq.ExpectArgs[e.Vars] {
+				if got := args[p]; got != want {
+					o.Violate("C20/wrong-args", "execution %d: %q received arguments %s, the coerced arguments of the field are %s", sl.ord, p, got, want)
 				}
 			}
 		}
